@@ -169,6 +169,23 @@ theorem C12_guards_positive {E : Type*} [NormedAddCommGroup E] [InnerProductSpac
         ⟪(cgSeq A M b x0 i).p, A (cgSeq A M b x0 i).p⟫_𝕜) :=
   ⟨gamma_pos hA hM pA pM hr, pAp_pos hA hM pA pM hr⟩
 
+/-- the hypotheses of `C12_guards_positive` hold for `A = diag(2, 3)`, `M = id`, `b = e₀`, `x0 = 0`,
+`i = 0` -/
+example :
+    (Matrix.toEuclideanLin exA).IsSymmetric ∧
+    (precLin (none : Option (Matrix (Fin 2) (Fin 2) ℝ))).IsSymmetric ∧
+    PosDefOp (Matrix.toEuclideanLin exA) ∧
+    PosDefOp (precLin (none : Option (Matrix (Fin 2) (Fin 2) ℝ))) ∧
+    ∀ j ≤ 0, (cgSeq (Matrix.toEuclideanLin exA) (precLin none) exb 0 j).r ≠ 0 := by
+  refine ⟨isSymmetric_toEuclideanLin exA_posDef, isSymmetric_precLin (fun _ h => by cases h),
+    posDefOp_toEuclideanLin exA_posDef, posDefOp_precLin (fun _ h => by cases h), ?_⟩
+  intro j hj
+  have : j = 0 := Nat.le_zero.mp hj
+  subst this
+  show exb - (Matrix.toEuclideanLin exA) 0 ≠ 0
+  rw [map_zero, sub_zero]
+  intro h; have := exb_norm; rw [h, norm_zero] at this; exact zero_ne_one this
+
 /-- with no guard active the model returns the textbook preconditioned-CG iterate of the ORIGINAL
 system (the normalisation by `‖b‖` is invisible) -/
 theorem C12_is_textbook_cg (A : Matrix (Fin n) (Fin n) 𝕜) (P : Option (Matrix (Fin n) (Fin n) 𝕜))
@@ -215,7 +232,7 @@ theorem C12_optimal {A : Matrix (Fin n) (Fin n) 𝕜} (hA : A.PosDef)
   rw [run_k] at hg ⊢
   exact xOut_optimal hA hP B X0 maxIters tol j hb hg hxs
 
-/-- the hypotheses of `C12_optimal` hold for `A = diag(2, 3)`, `b = e₀`, `x0 = 0`, no
+/-- the hypotheses of `C12_optimal` (and of `C12_is_textbook_cg`, `C12_residual_true`) hold for `A = diag(2, 3)`, `b = e₀`, `x0 = 0`, no
 preconditioner, `max_iters = 1`, `tol = 1/2` (and the exact solution exists) -/
 example :
     exA.PosDef ∧ PrecPosDef (none : Option (Matrix (Fin 2) (Fin 2) ℝ)) ∧ oneCol exb 0 ≠ 0 ∧
